@@ -32,6 +32,13 @@ def eval3(test: ast.AST, assume: Dict[str, object]):
     key = norm(test)
     if key in assume:
         return assume[key]
+    if isinstance(test, ast.Compare) and len(test.ops) == 1 and isinstance(test.ops[0], (ast.Is, ast.IsNot, ast.In, ast.NotIn)):
+        # an assumption stated for one polarity of an identity / membership test decides the other (the normal form of sa/normal.py
+        # orients two-armed conditionals positively, so `x is not None: True` must also answer `x is None`)
+        flip = {ast.Is: ast.IsNot, ast.IsNot: ast.Is, ast.In: ast.NotIn, ast.NotIn: ast.In}[type(test.ops[0])]
+        nkey = norm(ast.Compare(left=test.left, ops=[flip()], comparators=test.comparators))
+        if nkey in assume and isinstance(assume[nkey], bool):
+            return not assume[nkey]
     if isinstance(test, ast.Constant):
         return test.value
     if isinstance(test, ast.UnaryOp) and isinstance(test.op, ast.Not):
